@@ -544,6 +544,16 @@ func Known(id string) bool {
 	return false
 }
 
+// Title returns the recorded title of a finding.
+func Title(id string) string {
+	for _, f := range findings {
+		if f.ID == id {
+			return f.Title
+		}
+	}
+	return id
+}
+
 func knownByReplay(path string) *Finding {
 	for i := range findings {
 		if findings[i].Replay == "" {
